@@ -146,6 +146,21 @@ def rule_o(F):
         for bi, t in mu.calls(f):
             if "collections::value_stack::ValueStack::as_slice" in callee_names(t["func"]):
                 slice_locals.add(t["dest"]["l"])
+        # as_slice().get(i) / get_mut(i): the checked form of the same access
+        for bi, t in mu.calls(f):
+            nm = callee_names(t["func"])
+            if any(x.rsplit("::", 1)[-1] in ("get", "get_mut", "get_unchecked", "get_unchecked_mut") and "slice" in x for x in nm) and len(t["args"]) == 2:
+                r = op_local(t["args"][0])
+                seen_r = set()
+                while r is not None and r not in slice_locals and r not in seen_r:
+                    seen_r.add(r)
+                    d = du.sole_def(r)
+                    if d is None or d[2] != "assign" or d[3]["rv"]["k"] not in ("use", "cast", "ref"):
+                        break
+                    pl_ = d[3]["rv"].get("place") or op_place(d[3]["rv"].get("op"))
+                    r = pl_["l"] if pl_ is not None else None
+                if r in slice_locals:
+                    sites.append((t.get("ln"), t["args"][1], "as_slice().get(..)"))
         for b in f.blocks:
             for st in b["stmts"]:
                 if st["k"] != "assign":
@@ -309,7 +324,8 @@ def rule_r(F):
     res = []
     f = F.fn(IE + "instr_return")
     cfg = f.cfg
-    close = [bi for bi, t in mu.calls(f) if IE + "_close_upvalues" in callee_names(t["func"])]
+    closer = mu.upvalue_closer(F).short
+    close = [bi for bi, t in mu.calls(f) if closer in callee_names(t["func"])]
     trunc = [bi for bi, t in mu.calls(f) if "collections::value_stack::ValueStack::clear_until" in callee_names(t["func"])]
     if not trunc:
         raise AnchorMissing("clear_until in instr_return")
@@ -322,11 +338,11 @@ def rule_r(F):
     # CloseUpvalue releases the slot it closed (scope_end emits exactly one instruction per local leaving the scope)
     cu = F.fn(IE + "close_upvalues")
     ccfg = cu.cfg
-    closes = [bi for bi, t in mu.calls(cu) if IE + "_close_upvalues" in callee_names(t["func"])]
+    closes = [bi for bi, t in mu.calls(cu) if closer in callee_names(t["func"])]
     pops = set(bi for bi, t in mu.calls(cu) if any(n in ("collections::value_stack::ValueStack::pop", "vm::Vm::stack_pop",
                                                          "collections::value_stack::ValueStack::pop_n") for n in callee_names(t["func"])))
     if not closes:
-        raise AnchorMissing("_close_upvalues call in close_upvalues")
+        raise AnchorMissing("call of the upvalue-closing loop in close_upvalues")
     err = mu.error_exit_blocks(cu)
     rets = set(ccfg.return_blocks())
     t0 = cu.blocks[closes[0]]["term"]["target"]
